@@ -59,8 +59,19 @@ def _work(job):
 
 
 def run(chk: Check, owner: str) -> int:
+    explore(chk, owner)
+    return chk.finish("a case = one behaviour of MC_Aave (BFS spanning-tree path or simulated behaviour) replayed step by step into "
+                      "AaveV3Market; non-trivial = contains at least one accepted operation; distinct by event sequence")
+
+
+def run_cross(chk: Check, owner: str):
+    """Aave leg of the cross-market properties C01 / C03 / C04 (no chk.finish)."""
+    explore(chk, owner, cross=True)
+
+
+def explore(chk: Check, owner: str, cross=False):
     quick = chk.tier == "quick"
-    for dev, prop in DEVS.get(owner, []):
+    for dev, prop in DEVS.get(owner, []) if (not cross or owner == "C04") else []:
         r = tlc.run(SPEC, MC / f"MC_Aave_dev_{dev}.cfg", chk.tmp, workers=8, timeout=600)
         chk.extra.setdefault("dev_switch_detected", {})[f"DEV_{dev}"] = prop in r.violated
         if prop not in r.violated:
@@ -81,7 +92,7 @@ def run(chk: Check, owner: str) -> int:
     rnd = random.Random(chk.seed)
     jobs = []
     paths = g.tree_paths() if g else []
-    budget = 1500 if quick else 12000
+    budget = (700 if quick else 6000) if cross else (1500 if quick else 12000)
     chk.exhaustive = len(paths) <= budget
     if len(paths) > budget:
         paths = rnd.sample(paths, budget)
@@ -89,7 +100,7 @@ def run(chk: Check, owner: str) -> int:
         jobs.append(("path", p, "all" if i % 2 == 0 else "events"))
     # deeper behaviours by simulation
     simcfg = MC / ("MC_Aave_sim.cfg" if quick else "MC_Aave_sim2.cfg")
-    sres, behs = tlc.simulate(SPEC, simcfg, chk.tmp, num=240 if quick else 4000, depth=14 if quick else 22, seed=chk.seed,
+    sres, behs = tlc.simulate(SPEC, simcfg, chk.tmp, num=(120 if cross else 240) if quick else (2000 if cross else 4000), depth=14 if quick else 22, seed=chk.seed,
                               workers=8, timeout=1500)
     chk.add_tlc(sres, "simulate")
     chk.spec_violation(sres, "simulate")
@@ -116,12 +127,11 @@ def run(chk: Check, owner: str) -> int:
                 else:
                     chk.count(f"other/{prop}/{clause}")
     judge_probes(chk, owner, all_probes)
-    chk.extra["distinct_nontrivial"] = len(nontrivial)
-    chk.extra["universe"] = {"tokens": sorted(universe["tokens"]), "rows": len(universe["rows"])}
+    chk.extra["distinct_nontrivial"] = chk.extra.get("distinct_nontrivial", 0) + len(nontrivial)
+    chk.extra["aave_universe"] = {"tokens": sorted(universe["tokens"]), "rows": len(universe["rows"])}
     chk.assumptions += ["rate_to_apy(rate) is taken from the code as a leaf function; the spec provides the value weights",
                         "risk parameters enter through a harness-generated CSV in the format load_risk_parameter reads"]
-    return chk.finish("a case = one behaviour of MC_Aave (BFS spanning-tree path or simulated behaviour) replayed step by step into "
-                      "AaveV3Market; non-trivial = contains at least one accepted operation; distinct by event sequence")
+    return None
 
 
 def judge_probes(chk: Check, owner: str, probes):
